@@ -105,10 +105,21 @@ def const_secs(fx, v):
     return None
 
 
+def _about_job(key):
+    return "handle_task" in key or "JoinHandle" in key or "spawn" in key or "Updater::run" in key
+
+
 def job_result(p):
     for key, v in p.assume.items():
-        if key.startswith("variant:") and ("handle_task" in key or "JoinHandle" in key or "spawn" in key or "Updater::run" in key) and v in ("Ok", "Err"):
+        if key.startswith("variant:") and _about_job(key) and v in ("Ok", "Err"):
             return v
+    # `if let Err(e) = outcome { .. } else { .. }`: the else branch only knows what the outcome is not
+    for key, v in p.assume.items():
+        if key.startswith("notvariant:") and _about_job(key) and "→" not in key.split("(")[-1]:
+            if set(v) == {"Err"}:
+                return "Ok"
+            if set(v) == {"Ok"}:
+                return "Err"
     return None
 
 
@@ -119,8 +130,9 @@ def r1_equations(chk, fx, t, paths, outcomes):
     errs = [p for p in ticks if job_result(p) == "Err"]
     chk.instance("C19/R1", "the timer outcome distinguishes a successful and a failed job (%d / %d paths)" % (len(oks), len(errs)), t["def"], loc_of(t.get("sp")),
                  holds=bool(oks) and bool(errs) and len(oks) + len(errs) == len(ticks), key="C19/R1 %s unexpected-arm" % fn)
-    # the loop-carried delay = the variable whose pre-iteration value is handed to reset_after
-    delay_vars = set()
+    # the loop-carried delay = what is handed to reset_after: the pre-iteration value of a variable, or of a field of a variable
+    # (a small back-off type with methods: the interpreter runs them inline and writes their stores back to the variable)
+    delay_exprs = set()
     after_ok = True
     for p in errs:
         ra = p.calls("Interval::reset_after")
@@ -129,22 +141,38 @@ def r1_equations(chk, fx, t, paths, outcomes):
             continue
         d = ra[0][2][1] if len(ra[0][2]) > 1 else None
         if d is not None and d[0] == "sym" and d[1].startswith("loop:"):
-            delay_vars.add(d[1][5:])
+            delay_exprs.add((d[1][5:], None))
+        elif d is not None and d[0] == "field" and d[1][0] == "sym" and d[1][1].startswith("loop:"):
+            delay_exprs.add((d[1][1][5:], d[2]))
         else:
             after_ok = False
     chk.instance("C19/R1", "job Err: interval.reset_after(<the loop-carried delay>) — exactly once", t["def"], loc_of(t.get("sp")),
-                 holds=after_ok and len(delay_vars) == 1, key="C19/R1 %s err-arm-reset_after" % fn)
+                 holds=after_ok and len(delay_exprs) == 1, key="C19/R1 %s err-arm-reset_after" % fn)
     chk.instance("C19/R1", "job Err: the delay uses the pre-update back-off (the value the variable had when the iteration began)", t["def"], loc_of(t.get("sp")),
-                 holds=after_ok and len(delay_vars) == 1, key="C19/R1 %s err-arm-order" % fn,
+                 holds=after_ok and len(delay_exprs) == 1, key="C19/R1 %s err-arm-order" % fn,
                  detail=None if after_ok else "reset_after is given something else than the variable's value from before the update")
-    var = next(iter(delay_vars)) if len(delay_vars) == 1 else None
-    # initial value: a constant equal to 60 s (the variable's `let` before the loop)
+    var, fld = next(iter(delay_exprs)) if len(delay_exprs) == 1 else (None, None)
+    pre = (("sym", "loop:%s" % var) if fld is None else ("field", ("sym", "loop:%s" % var), fld)) if var else None
+
+    def delay_of(state):
+        """The delay held by an abstract state of the variable."""
+        if state is None or fld is None:
+            return state
+        return A.Interp(fx).project(state, fld)
+
+    def new_state(p):
+        asg = p.assigns(var) if var else []
+        return asg[-1][2] if asg else None
+    # initial value: what the first iteration would hand to reset_after when the loop state is *not* abstracted — a constant of 60 s
     init = None
-    body = T.user_body(t)
-    for s in T.walk(body):
-        if s.get("k") == "LetStmt" and var is not None and T.pat_str(s["pat"]) == var and s.get("init") is not None:
-            i0 = T.peel(s["init"])
-            init = ("const", i0["def"]) if i0.get("k") == "Const" else None
+    it0 = A.Interp(fx, crates=(AGENT,), max_paths=4000, no_inline=("Updater::<T>::run", "task::handle_task"), havoc_loops=False)
+    it0.model_iterators = False
+    for p in classify(it0.explore(t["def"])).get("tick", []):
+        ra = p.calls("Interval::reset_after")
+        if job_result(p) == "Err" and len(ra) == 1 and len(ra[0][2]) > 1:
+            init = ra[0][2][1]
+    if not (isinstance(init, tuple) and init[0] == "const"):
+        init = None
     secs0 = const_secs(fx, init)
     chk.instance("C19/R1", "initial back-off is a constant (%s)" % (A.vstr(init) if init else None), t["def"], loc_of(t.get("sp")), holds=init is not None,
                  key="C19/R1 %s initial-backoff" % fn)
@@ -163,19 +191,19 @@ def r1_equations(chk, fx, t, paths, outcomes):
                  key="C19/R1 %s ok-arm-reset" % fn)
     ok_set = bool(oks) and var is not None
     for p in oks:
-        asg = p.assigns(var) if var else []
-        ok_set = ok_set and len(asg) == 1 and asg[0][2] == init
+        st = new_state(p)
+        ok_set = ok_set and st is not None and delay_of(st) == init
     chk.instance("C19/R1", "job Ok: back-off = the initial constant again", t["def"], loc_of(t.get("sp")), holds=ok_set, key="C19/R1 %s ok-arm-backoff" % fn)
     # job Err update
     upd_ok, detail = bool(errs) and var is not None, None
     for p in errs:
-        asg = p.assigns(var) if var else []
-        if len(asg) != 1:
-            upd_ok, detail = False, "%d assignments" % len(asg)
+        st = new_state(p)
+        if st is None:
+            upd_ok, detail = False, "the back-off is not updated"
             continue
-        v = asg[0][2]
+        v = delay_of(st)
         detail = A.vstr(v)
-        upd_ok = upd_ok and is_capped_growth(v, var)
+        upd_ok = upd_ok and is_capped_growth(v, pre, var, it0_cap(fx, t, var))
     chk.instance("C19/R1", "job Err: back-off = min(self.period, previous * k), k >= 2 (grows, capped by the period): %s" % detail, t["def"], loc_of(t.get("sp")),
                  holds=upd_ok, key="C19/R1 %s err-arm-update" % fn, detail=detail)
     stray = [p for p in paths if var and p.assigns(var) and p not in oks and p not in errs]
@@ -183,13 +211,38 @@ def r1_equations(chk, fx, t, paths, outcomes):
                  key="C19/R1 %s stray-backoff-assignment" % fn)
 
 
-def is_capped_growth(v, var):
-    """min(self.period, «loop:var» * k) with k >= 2, in either argument order (cmp::min / Ord::min)."""
+def it0_cap(fx, t, var):
+    """Fields of the back-off variable that hold `self.period` when the loop is entered (a cap kept inside a back-off type) and that no
+    path of the loop changes."""
+    it0 = A.Interp(fx, crates=(AGENT,), max_paths=4000, no_inline=("Updater::<T>::run", "task::handle_task"), havoc_loops=False)
+    it0.model_iterators = False
+    caps = None
+    for p in it0.explore(t["def"]):
+        st = (p.env or {}).get(var)
+        if st is None or st[0] not in ("adt", "upd"):
+            continue
+        cur = set()
+        base = st
+        while base[0] == "upd":
+            base = base[1]
+        if base[0] == "adt":
+            for f, v in base[3]:
+                if v[0] == "field" and v[2] == "period" and "self" in A.vstr(v[1]) and A.Interp(fx).project(st, f) == v:
+                    cur.add(f)
+        caps = cur if caps is None else (caps & cur)
+    return caps or set()
+
+
+def is_capped_growth(v, pre, var, cap_fields=()):
+    """min(cap, previous * k) with k >= 2, in either argument order (cmp::min / Ord::min); cap = self.period, or a field of the
+    back-off variable that holds self.period throughout; previous = the delay before the update."""
     if not (v[0] == "term" and T.short(v[1], 2) in ("cmp::min", "Ord::min") and len(v[2]) == 2):
         return False
     a, b = v[2]
     for cap, grow in ((a, b), (b, a)):
-        if cap[0] == "field" and cap[2] == "period" and "self" in A.vstr(cap[1]):
+        is_cap = (cap[0] == "field" and cap[2] == "period" and "self" in A.vstr(cap[1])) or \
+                 (cap[0] == "field" and cap[1] == ("sym", "loop:%s" % var) and cap[2] in cap_fields)
+        if is_cap:
             k, base = None, None
             if grow[0] == "term" and T.short(grow[1], 2) == "Mul::mul" and len(grow[2]) == 2:
                 base, k = grow[2]
@@ -199,7 +252,7 @@ def is_capped_growth(v, var):
                 base, k = grow[2], grow[3]
                 if base[0] == "lit":
                     base, k = k, base
-            if base == ("sym", "loop:" + var) and k is not None and k[0] == "lit" and isinstance(k[1], int) and k[1] >= 2:
+            if base == pre and k is not None and k[0] == "lit" and isinstance(k[1], int) and k[1] >= 2:
                 return True
     return False
 
@@ -216,7 +269,7 @@ def r2_reset(chk, t, outcomes):
     for p in ticks:
         sp = p.calls("tokio::spawn") + p.calls("task::spawn")
         spawned_run = any("Updater::run" in A.vstr(a) or "run(" in A.vstr(a) for c in sp for a in c[2])
-        joined = any(k.startswith("variant:") and "handle_task" in k and ("spawn" in k) for k in p.assume)
+        joined = any(k.startswith(("variant:", "notvariant:")) and "handle_task" in k and ("spawn" in k) for k in p.assume)
         iso = iso and spawned_run and joined
     chk.instance("C19/R2", "the job runs in a spawned task joined through handle_task: a panicking run counts as a failed run", t["def"], loc_of(t.get("sp")),
                  holds=iso, key="C19/R2 task::Loop::start job-not-isolated-from-panic",
